@@ -2,6 +2,7 @@ mod alloc;
 mod checks_a;
 mod checks_b;
 mod checks_c06;
+mod checks_c14;
 mod checks_c20;
 mod checks_codec;
 mod checks_prio2;
@@ -30,6 +31,7 @@ fn registry() -> Vec<Box<dyn Check>> {
     v.extend(checks_b::checks());
     v.extend(checks_codec::checks());
     v.extend(checks_c20::checks());
+    v.extend(checks_c14::checks());
     v.extend(checks_c06::checks());
     v.extend(checks_prio2::checks());
     v.extend(checks_twin::checks());
